@@ -157,6 +157,86 @@ func runC14(seed int64, tier string, sc *Script) map[string]any {
 			}
 		}
 	}
+	// (a2) faults on the index maintenance itself, sequentially: an index that cannot be
+	// deleted is reported as such *after* the update took effect; an index that cannot be
+	// pushed leaves what was indexed before in place
+	for ri := 0; ri < 8; ri++ {
+		sc.Case("referrers-index-fault")
+		sc.NonTrivial()
+		reg := newFakeRegistry(regProfile{ReferrersAPI: false, DigestHeaders: ri%2 == 0})
+		repo, err := remote.NewRepository(reg.Host() + "/test/repo")
+		if err != nil {
+			panic(err)
+		}
+		repo.PlainHTTP = true
+		sb := []byte(fmt.Sprintf(`{"schemaVersion":2,"mediaType":%q,"config":{"mediaType":"application/vnd.oci.empty.v1+json","digest":"sha256:44136fa355b3678a1146ad16f7e8649e94fb4fc21fe77e8310c060f61caaff8a","size":2},"layers":[],"annotations":{"f":"%d"}}`, ocispec.MediaTypeImageManifest, ri))
+		sub := content.NewDescriptorFromBytes(ocispec.MediaTypeImageManifest, sb)
+		if err := repo.Push(ctx, sub, bytes.NewReader(sb)); err != nil {
+			panic(err)
+		}
+		mkRef := func(i int) (ocispec.Descriptor, []byte) {
+			b := []byte(fmt.Sprintf(`{"schemaVersion":2,"mediaType":%q,"artifactType":"application/vnd.verif.f","config":{"mediaType":"application/vnd.oci.empty.v1+json","digest":"sha256:44136fa355b3678a1146ad16f7e8649e94fb4fc21fe77e8310c060f61caaff8a","size":2},"layers":[],"subject":{"mediaType":%q,"digest":%q,"size":%d},"annotations":{"i":"%d"}}`,
+				ocispec.MediaTypeImageManifest, sub.MediaType, sub.Digest, sub.Size, i))
+			return content.NewDescriptorFromBytes(ocispec.MediaTypeImageManifest, b), b
+		}
+		listed := func() string {
+			var got []string
+			if err := repo.Referrers(ctx, sub, "", func(rs []ocispec.Descriptor) error {
+				for _, r := range rs {
+					got = append(got, r.Annotations["i"])
+				}
+				return nil
+			}); err != nil {
+				return "listing-failed"
+			}
+			sort.Strings(got)
+			return strings.Join(got, ",")
+		}
+		nPre := 1 + ri%3
+		for i := 0; i < nPre; i++ {
+			d, b := mkRef(i)
+			if err := repo.Push(ctx, d, bytes.NewReader(b)); err != nil {
+				panic(err)
+			}
+		}
+		before := listed()
+		kind := []string{"deny-index-delete", "fail-index-put"}[(ri/2)%2]
+		reg.mu.Lock()
+		if kind == "deny-index-delete" {
+			reg.denyIndexDelete = true
+		} else {
+			reg.failIndexPutOnce = true
+		}
+		reg.mu.Unlock()
+		d, b := mkRef(100)
+		perr := repo.Push(ctx, d, bytes.NewReader(b))
+		var re *remote.ReferrersError
+		isIdxDel := errors.As(perr, &re) && re.IsReferrersIndexDelete()
+		after := listed()
+		verdict := "ok"
+		switch kind {
+		case "deny-index-delete":
+			ws := append(strings.Split(before, ","), "100")
+			sort.Strings(ws)
+			want := strings.Join(ws, ",")
+			switch {
+			case !isIdxDel:
+				verdict = "not-reported-as-index-delete-error"
+			case after != want:
+				verdict = fmt.Sprintf("update-did-not-take-effect(listed=%s,want=%s)", after, want)
+			}
+		case "fail-index-put":
+			switch {
+			case perr == nil:
+				verdict = "failed-index-push-not-reported"
+			case after != before:
+				verdict = fmt.Sprintf("indexed-referrers-lost(listed=%s,before=%s)", after, before)
+			}
+		}
+		sc.Op(verdict, "rf fault kind=%s pre=%d digesthdr=%v", kind, nPre, ri%2 == 0)
+		evals++
+		reg.Close()
+	}
 	// (b) end to end under concurrency
 	rounds := 12
 	if tier == "thorough" {
